@@ -528,7 +528,13 @@ def _local_fresh(g: FuncInfo, arg):
     a = g.node.args
     if arg.id in [p.arg for p in a.posonlyargs + a.args + a.kwonlyargs] or (a.vararg and a.vararg.arg == arg.id) \
             or (a.kwarg and a.kwarg.arg == arg.id):
-        return False
+        # a parameter NAME that the function rebinds unconditionally (a statement of its own body, before this use) is a
+        # local from then on: `chars: list[str] = list(...)` followed by `helper(chars)`
+        def binds_it(st):
+            tg = st.targets if isinstance(st, ast.Assign) else [st.target] if isinstance(st, ast.AnnAssign) and st.value is not None else []
+            return any(isinstance(t, ast.Name) and t.id == arg.id for t in tg)
+        if not any(binds_it(st) and st.end_lineno < arg.lineno for st in g.node.body):
+            return False
     values = []
     for n in ast.walk(g.node):
         if isinstance(n, ast.Assign):
@@ -613,6 +619,8 @@ class SetFlow:
                 (isinstance(expr.value, ast.Name) and expr.value.id in ("self", "cls", "__class__")):
             return True
         if isinstance(expr, ast.Name):
+            if expr.id in self.set_vars[f] and self._rebound_to_nonset(f, expr):
+                return False
             return expr.id in self.set_vars[f] or (f.outer is not None and self.is_set(f.outer, expr))
         if isinstance(expr, ast.Call):
             if isinstance(expr.func, ast.Name) and expr.func.id in ("set", "frozenset"):
@@ -629,6 +637,33 @@ class SetFlow:
         if isinstance(expr, ast.IfExp):
             return self.is_set(f, expr.body) or self.is_set(f, expr.orelse)
         return False
+
+    def _rebound_to_nonset(self, f, use):
+        """The nearest binding of this name before the use is an unconditional statement of the function's own body whose
+        value is not a set (`chars: list[str] = list(...)` rebinding a parameter annotated as a set): from there on the name
+        is that list - the `list(set)` conversion itself is the order sink that gets classified, not every later use."""
+        if not hasattr(use, "lineno"):
+            return False
+        binds = []
+        for st in ast.walk(f.node):
+            if isinstance(st, (ast.Assign, ast.AnnAssign, ast.AugAssign, ast.For, ast.NamedExpr, ast.comprehension, ast.With)):
+                tg = st.targets if isinstance(st, ast.Assign) else [getattr(st, "target", None)] if not isinstance(st, ast.With) else \
+                    [i.optional_vars for i in st.items]
+                if any(t is not None and any(isinstance(x, ast.Name) and x.id == use.id for x in ast.walk(t)) for t in tg):
+                    binds.append(st)
+        prior = [b for b in binds if getattr(b, "end_lineno", 10 ** 9) < use.lineno]
+        if not prior:
+            return False
+        last = max(prior, key=lambda b: b.lineno)
+        if last not in f.node.body or not isinstance(last, (ast.Assign, ast.AnnAssign)) or last.value is None:
+            return False
+        if any(isinstance(b, (ast.For, ast.While)) and b.lineno <= use.lineno <= b.end_lineno and
+               any(x is not last and x.lineno >= b.lineno and x.end_lineno <= b.end_lineno for x in binds) for b in ast.walk(f.node)):
+            return False          # the use sits in a loop that rebinds the name again
+        tg = last.targets if isinstance(last, ast.Assign) else [last.target]
+        if not all(isinstance(t, ast.Name) for t in tg):
+            return False
+        return not self.is_set(f, last.value)
 
     def _infer(self):
         changed = True
@@ -998,8 +1033,27 @@ def _history(ctx, model):
                K(ESS, "UnsignedDecimal", 0, 9, 1, 2), K(ESS, "Decimal", 0, 9, 1, 2), K(ESS, "IPv4"), K(ESS, "IPv6"), K(ESS, "IPv4", True),
                K(ESS, "Date", "dd/mm/yyyy"), K(ESS, "Date", "d-m-yy"), K(ESS, "Date", "mm/dd/yyyy"), K(ESS, "Date", "dd/mm/yyyy")]
 
+    def near(step):
+        """Constructions whose arguments are EQUAL-BUT-NOT-THE-SAME (1 / True / 1.0 hash alike) or nearly equal (other case,
+        trailing blank) to those of `step`: a memo keyed by a hashed or normalised argument answers them from the entry the
+        original call left behind, although a fresh process validates / builds them differently."""
+        out = []
+        if isinstance(step, tuple) and step[0] == "new":
+            _, mod, name, a = step
+            for i, x in enumerate(a):
+                vs = []
+                if isinstance(x, str) and x:
+                    vs = [v for v in (x.upper(), x + " ") if v != x]
+                elif isinstance(x, int) and not isinstance(x, bool):
+                    vs = [float(x)] + ([bool(x)] if x in (0, 1) else [])
+                out += [("new", mod, name, a[:i] + (v,) + a[i + 1:]) for v in vs]
+        return out
+    n_plain = len(script)
+    script = [s2 for st in script for s2 in [st] + near(st)]
+    ctx.extra["history_script"] = {"steps": len(script), "near_miss_steps": len(script) - n_plain}
+
     def ev(it, step):
-        if isinstance(step, str) or isinstance(step, (int, bool)):
+        if isinstance(step, str) or isinstance(step, (int, bool, float)):
             return step
         kind = step[0]
         if kind == "new":
@@ -1052,7 +1106,7 @@ def _history(ctx, model):
 
 
 def _step_label(st):
-    if isinstance(st, (str, int, bool)):
+    if isinstance(st, (str, int, bool, float)):
         return repr(st)
     if st[0] == "new":
         return f"{st[2]}({', '.join(_step_label(x) for x in st[3])})"
@@ -1350,19 +1404,35 @@ def scan_hidden(tree):
                     if a.name in ("lru_cache", "cache"):
                         from_cache.add(a.asname or a.name)      # judged per decorated function, below
                 continue
+            if n.module == "os" and all(a.name in ("PathLike",) for a in n.names):
+                continue          # a type used in annotations / isinstance tests: reads nothing from the process environment
             out.append((n, f"import from {n.module}"))
     # a cache as decorator of a function without `self` whose every return is an immutable value cannot change any
     # result (the function is re-evaluated or its old, unalterable result is handed out): judged per decorated function
     safe_cache_nodes = set()
     cache_names = {"lru_cache", "cache"}
+    def _is_cache_expr(d):
+        core = d.func if isinstance(d, ast.Call) else d
+        return (isinstance(core, ast.Attribute) and isinstance(core.value, ast.Name) and core.value.id in functools_aliases
+                and core.attr in cache_names) or (isinstance(core, ast.Name) and core.id in from_cache)
+    # the wrapper spelled as a call instead of a decorator:  NAME = functools.lru_cache(maxsize=N)(f)  /  functools.cache(f)
+    # with f a function of the same module - judged exactly like the decorator form
+    wrapped = []
+    defs_by_name = {}
+    for fn in ast.walk(tree):
+        if isinstance(fn, ast.FunctionDef):
+            defs_by_name.setdefault(fn.name, []).append(fn)
+    for c in ast.walk(tree):
+        if isinstance(c, ast.Call) and len(c.args) == 1 and not c.keywords and isinstance(c.args[0], ast.Name) and \
+                (_is_cache_expr(c.func) if isinstance(c.func, ast.Call) else
+                 (_is_cache_expr(c) and not (isinstance(c.func, ast.Attribute) and c.func.attr == "lru_cache") and not
+                  (isinstance(c.func, ast.Name) and c.func.id == "lru_cache"))) and len(defs_by_name.get(c.args[0].id, [])) == 1:
+            wrapped.append((defs_by_name[c.args[0].id][0], c.func if isinstance(c.func, ast.Call) else c))
     for fn in ast.walk(tree):
         if not isinstance(fn, ast.FunctionDef):
             continue
-        for d in fn.decorator_list:
-            core = d.func if isinstance(d, ast.Call) else d
-            is_cache = (isinstance(core, ast.Attribute) and isinstance(core.value, ast.Name) and core.value.id in functools_aliases
-                        and core.attr in cache_names) or (isinstance(core, ast.Name) and core.id in from_cache)
-            if not is_cache:
+        for d in list(fn.decorator_list) + [w for g, w in wrapped if g is fn]:
+            if not _is_cache_expr(d):
                 continue
             params = [a.arg for a in fn.args.posonlyargs + fn.args.args]
             rets = [r.value for r in ast.walk(fn) if isinstance(r, ast.Return) and r.value is not None]
